@@ -1,3 +1,6 @@
+#[cfg(okane_verif)]
+#[allow(unused_imports)]
+use crate::verif::chrono;
 use std::convert::{From, TryFrom, TryInto};
 
 use super::config;
